@@ -2,7 +2,7 @@
 """G1: chemical-formula ASTs (JSON-able), their text, canonical text and reference composition.
 
 AST
-    formula = {"prefix": "" | "." | "<greek>-",
+    formula = {"prefix": "" | "." | "<greek>-" | "<greek>-." (rare),
                "parts": [{"n": int, "terms": [term, ...]}, ...],   # parts[0]["n"] == 1
                "hyd": ".." | "·",
                "charge": None | {"sign": "+"|"-", "mag": int>=1, "explicit1": bool},
@@ -34,8 +34,20 @@ def _count(draw, allow_decimal=True):
     if k < 90 or not allow_decimal:
         return str(draw(st.integers(21, 10000)))
     ip = draw(st.integers(0, 99))
-    nd = draw(st.integers(1, 4))
-    fp = draw(st.integers(0 if ip > 0 else 1, 10 ** nd - 1))
+    shape = draw(st.integers(0, 9))
+    if shape < 7:
+        nd = draw(st.integers(1, 4))
+        fp = draw(st.integers(0 if ip > 0 else 1, 10 ** nd - 1))
+    elif shape < 9:       # long decimals (5..9 digits)
+        nd = draw(st.integers(5, 9))
+        fp = draw(st.integers(0 if ip > 0 else 1, 10 ** nd - 1))
+    else:                 # within a few 1e-7 .. 1e-9 of an integer, from below or above
+        nd = draw(st.integers(7, 9))
+        eps = draw(st.integers(1, 9))
+        if draw(st.booleans()):
+            fp = 10 ** nd - eps                 # n.9999998
+        else:
+            ip, fp = max(ip, 1), eps            # n.0000003
     return "%d.%0*d" % (ip, nd, fp)
 
 
@@ -84,7 +96,14 @@ def formulas(draw, max_depth=4, max_terms=6, max_hydrates=2, allow_electron=True
         charge = {"sign": draw(st.sampled_from("+-")), "mag": mag,
                   "explicit1": mag == 1 and draw(st.integers(0, 9)) >= 8}
     k = draw(st.integers(0, 99))
-    prefix = "" if k < 80 else ("." if k < 88 else draw(st.sampled_from(GREEK)) + "-")
+    if k < 80:
+        prefix = ""
+    elif k < 88:
+        prefix = "."
+    elif k < 98:
+        prefix = draw(st.sampled_from(GREEK)) + "-"
+    else:
+        prefix = draw(st.sampled_from(GREEK)) + "-."      # greek label followed by the radical dot, e.g. alpha-.NO2
     suffix = "" if draw(st.integers(0, 99)) < 65 else draw(st.sampled_from(SUFFIXES))
     return {"prefix": prefix, "parts": parts, "hyd": hyd, "charge": charge, "suffix": suffix, "electron": False}
 
@@ -202,7 +221,7 @@ def labels(f):
     if s["charge"]:
         out.append("charge=%s" % ("1" if s["charge"] == 1 else "2+"))
     if s["prefix"]:
-        out.append("prefix=" + ("radical" if s["prefix"] == "." else "greek"))
+        out.append("prefix=" + ("radical" if s["prefix"] == "." else "greek+radical" if s["prefix"].endswith("-.") else "greek"))
     if s["suffix"]:
         out.append("suffix")
     if f.get("electron"):
